@@ -121,8 +121,13 @@ def run(ctx):
     for p in range(7, 17):
         for seed in (0, 1, ctx.rng.getrandbits(64)):
             h = HyperLogLog(p, seed)
-            v = h.query()
             ctx.case_seen(("empty", p, seed), False)
+            try:
+                v = h.query()
+            except Exception as e:  # noqa
+                ctx.violation({"p": p, "sketch_seed": seed, "exception": repr(e)},
+                              f"query() of the empty sketch raised {e!r} instead of returning 0.0")
+                continue
             if not (float(v) == 0.0 and math.copysign(1.0, float(v)) == 1.0):
                 ctx.violation({"p": p, "sketch_seed": seed, "query": repr(v)}, "query() of the empty sketch is not exactly 0.0")
 
